@@ -616,21 +616,39 @@ def m_map_insert(ex, st, callee, args, dty, m):
         return NotImplemented
     k = args[1]
     val = args[2] if len(args) > 2 else UNIT
+    was_there = z3.Or(*[z3.And(p, key_eq(ex, ek, k)) for p, ek, ev in mv.entries]) if mv.entries else z3.BoolVal(False)
+    was_there = z3.simplify(was_there)
     for e in mv.entries:
         e[0] = z3.simplify(z3.And(e[0], z3.Not(key_eq(ex, e[1], k))))
     mv.entries.append([z3.BoolVal(True), k, Cell(val)])
+    if (dty or "").strip() == "bool":
+        return z3.Not(was_there)
     return Opaque("insert-result!%d" % next(ex.fresh_counter), dty)
 
 
-@model(MAP_RE + r"::(?:remove|remove_entry)::<.*>$")
+def _do_remove(ex, st, data):
+    map_ref, idx, is_set, dty = data
+    mv = as_map(ex, map_ref)
+    if idx is None:
+        return z3.BoolVal(False) if is_set else mk_none(dty)
+    ent = mv.entries.pop(idx)
+    return z3.BoolVal(True) if is_set else mk_some(dty, ent[2].v)
+
+
+@model(MAP_RE + r"::(?:remove|remove_entry|take)::<.*>$")
 def m_map_remove(ex, st, callee, args, dty, m):
     mv = as_map(ex, args[0])
     if mv.entries is None:
         return NotImplemented
     k = args[1]
-    for e in mv.entries:
-        e[0] = z3.simplify(z3.And(e[0], z3.Not(key_eq(ex, e[1], k))))
-    return Opaque("remove-result!%d" % next(ex.fresh_counter), dty)
+    is_set = "Set" in callee.split("::remove")[0].split("::take")[0]
+    outs, none_c = [], []
+    for i, e in enumerate(mv.entries):
+        c = z3.simplify(z3.And(e[0], key_eq(ex, e[1], k)))
+        none_c.append(z3.Not(c))
+        outs.append((c, ("__thunk__", _do_remove, (args[0], i, is_set, dty))))
+    outs.append((z3.And(*none_c) if none_c else z3.BoolVal(True), ("__thunk__", _do_remove, (args[0], None, is_set, dty))))
+    return ("__fork__", outs)
 
 
 @model(MAP_RE + r"::get::<.*>$")
@@ -915,10 +933,14 @@ def m_map_iter(ex, st, callee, args, dty, m):
     if mv.entries is None:
         return NotImplemented
     items = []
+    is_set = "HashSet" in callee
     for e in mv.entries:
         if not z3.is_true(z3.simplify(e[0])):
             raise Unsupported("iteration over a map with conditionally present entries")
-        items.append(Agg("tuple", "(k,v)", [Ref(Cell(e[1]), ()), Ref(e[2], (), True)]))
+        if is_set:
+            items.append(Ref(Cell(e[1]), ()))
+        else:
+            items.append(Agg("tuple", "(k,v)", [Ref(Cell(e[1]), ()), Ref(e[2], (), True)]))
     return Agg("struct", "SeqIter", [Ref(Cell(Seq(items)), ()), u64(0)])
 
 
@@ -967,3 +989,56 @@ def m_entry_or_default(ex, st, callee, args, dty, m):
 def m_int_cmp(ex, st, callee, args, dty, m):
     a, b = deref(ex, args[0]), deref(ex, args[1])
     return ex.binop("Cmp", a, b)
+
+
+# ---------------------------------------------------------------- sets: iteration and collect
+SET_ITER = r"(?:std::collections::)?hash_set::Iter<'_, .*>"
+
+
+@model(r"(?:std::collections::|ahash::)?(?:AHashSet|HashSet)::<.*>::iter$|<&(?:ahash::)?(?:AHashSet|HashSet)<.*> as IntoIterator>::into_iter$")
+def m_set_iter(ex, st, callee, args, dty, m):
+    mv = as_map(ex, args[0])
+    if mv.entries is None:
+        return NotImplemented
+    items = []
+    for e in mv.entries:
+        if not z3.is_true(z3.simplify(e[0])):
+            raise Unsupported("iteration over a set with conditionally present entries")
+        items.append(Ref(Cell(e[1]), ()))
+    return Agg("struct", "SeqIter", [Ref(Cell(Seq(items)), ()), u64(0)])
+
+
+@model(r"<" + SET_ITER + r" as Iterator>::next$")
+def m_set_iter_next(ex, st, callee, args, dty, m):
+    return m_map_iter_next(ex, st, callee, args, dty, m)
+
+
+@model(r"<" + SET_ITER + r" as Iterator>::collect::<Vec<.*>>$|<(?:std|core)::slice::Iter<'_, .*> as Iterator>::collect::<Vec<.*>>$")
+def m_iter_collect(ex, st, callee, args, dty, m):
+    it = deref(ex, args[0]) if isinstance(args[0], Ref) else args[0]
+    if not (isinstance(it, Agg) and it.name == "SeqIter"):
+        return NotImplemented
+    seq = deref(ex, it.fields[0])
+    i = as_int(it.fields[1])
+    return Seq(list(seq.items[i:]))
+
+
+@model(r"<(?:std::)?vec::IntoIter<.*> as Iterator>::next$")
+def m_vec_into_iter_next(ex, st, callee, args, dty, m):
+    it = deref(ex, args[0])
+    if not (isinstance(it, Agg) and it.name == "SeqIter"):
+        return NotImplemented
+    seq = deref(ex, it.fields[0])
+    i = as_int(it.fields[1])
+    if i >= len(seq.items):
+        return mk_none(dty)
+    it.fields[1] = u64(i + 1)
+    return mk_some(dty, seq.items[i])
+
+
+@model(r"<Vec<.*> as IntoIterator>::into_iter$")
+def m_vec_into_iter(ex, st, callee, args, dty, m):
+    v = args[0]
+    if isinstance(v, Seq):
+        return Agg("struct", "SeqIter", [Ref(Cell(v), ()), u64(0)])
+    return NotImplemented
